@@ -5,12 +5,16 @@ rows = []
 for d in sorted(glob.glob("/verif/seeded/*/")):
     m = json.load(open(os.path.join(d, "meta.json")))
     name = os.path.basename(d.rstrip("/"))
-    missed = "missed at first" in (m.get("note") or "") or "first caught only" in (m.get("note") or "") or "hung" in (m.get("note") or "")
-    rows.append((name, m.get("property"), ", ".join(m.get("caught_by") or []), "no" if missed else "yes", (m.get("note") or "").replace("|", "/")))
+    note = (m.get("note") or "")
+    low = note.lower()
+    missed = "missed at first" in low or "first caught only" in low or "hung" in low
+    tie1 = "alarm only through tie 1" in low
+    rows.append((name, m.get("property"), ", ".join(m.get("caught_by") or []), "no" if missed else ("tie 1 only" if tie1 else "yes"), note.replace("|", "/")))
 print("| seeded change | property | caught by | caught before strengthening | what it took |")
 print("|---|---|---|---|---|")
 for r in rows:
     print("| %s | %s | %s | %s | %s |" % r)
 print()
-print("%d changes; %d caught by the checks as they were when the change arrived, %d only after strengthening (generators / watchdog)." % (
-    len(rows), sum(1 for r in rows if r[3] == "yes"), sum(1 for r in rows if r[3] == "no")))
+print("%d changes; %d caught with a concrete failing input by the checks as they were when the change arrived, %d at first only through a "
+      "broken tie-1 bridge (no-failing-input-found; a concrete input after strengthening), %d only after strengthening (generators / watchdog / harness)." % (
+    len(rows), sum(1 for r in rows if r[3] == "yes"), sum(1 for r in rows if r[3] == "tie 1 only"), sum(1 for r in rows if r[3] == "no")))
